@@ -50,6 +50,7 @@ def budget(tier):
 
 
 def strategy(tier):
+    N.enable_long_texts(tier == "thorough")
     from ..gen import strategies as S
     j = G.pair().map(lambda t: {"kind": "json", "a": t[0], "b": t[1]})
     n = N.pair().map(lambda t: {"kind": "nb", "a": t[0], "b": t[1]})
